@@ -65,6 +65,23 @@ class Repo:
             raise AnalysisError(f"package directory not found: {self.pkgdir}")
         self.modules: Dict[str, Module] = {}
         self.norm_stats: Dict[str, dict] = {}
+        # new module-level scalar constants of every module (for `from .x import NEW_CONST` in a sibling module)
+        self._foreign: Dict[str, Dict[str, object]] = {}
+        if os.environ.get("VERIF_NO_NORMALISE") != "1":
+            from .normalise import baseline, new_scalar_constants
+
+            for fn in sorted(os.listdir(self.pkgdir)):
+                if fn.endswith(".py"):
+                    try:
+                        with open(os.path.join(self.pkgdir, fn), "rb") as fh:
+                            t0 = ast.parse(fh.read().decode("utf-8"))
+                    except (SyntaxError, UnicodeDecodeError, OSError):
+                        continue
+                    b = baseline().get(fn[:-3])
+                    if b is not None:
+                        c = new_scalar_constants(t0, set(b.get("names", [])))
+                        if c:
+                            self._foreign[fn[:-3]] = c
         for fn in sorted(os.listdir(self.pkgdir)):
             if fn.endswith(".py"):
                 self._load(os.path.join(self.pkgdir, fn), fn[:-3])
@@ -92,7 +109,7 @@ class Repo:
         if not name.startswith("scripts/") and os.environ.get("VERIF_NO_NORMALISE") != "1":
             from .normalise import normalise
 
-            normalise(tree, name, self.norm_stats.setdefault(name, {}))
+            normalise(tree, name, self.norm_stats.setdefault(name, {}), getattr(self, "_foreign", None))
         rel = os.path.relpath(path, self.root)
         mod = Module(name, path, rel, src, tree, hashlib.sha256(raw).hexdigest()[:16])
         self._index(mod)
